@@ -7,7 +7,7 @@ import re
 
 from .. import dl, lit
 from ..core import AnalysisError
-from ..src import mod, calls_in, call_name, dotted, kwarg, norm, walk_local
+from ..src import Locals, mod, calls_in, call_name, dotted, kwarg, norm, walk_local
 
 PIO = "toolchain/pio.py"
 
@@ -163,12 +163,14 @@ def rule_project_eval(cx, m, rid):
     r = cx.rule(rid, "for every registered board write_project performs exactly: mkdir src, src/main.cpp = the given code (utf-8), platformio.ini (utf-8) with one [env:...] section naming exactly the given platform, board and port and the requested libraries once each in order; an unregistered pair writes nothing", floor=300, exhaustive=True)
     plats = lit.table(m, "SUPPORTED_PLATFORMS")
     wp = m.func("write_project")
-    code = "// sketch\nvoid setup() {}\nvoid loop() {}\n"
+    code0 = "// sketch\nvoid setup() {}\nvoid loop() {}\n"
+    # the source is written verbatim whatever it looks like: no final newline, empty, CR/LF, non-ASCII, trailing blanks
+    codes = [code0, "void setup() {}\nvoid loop() {}", "", "x", "int a;\r\n", "// caf\u00e9 \u00b5s\n", "a\n\n\n", "  \t", "line\r"]
     libs = ["Servo", "LiquidCrystal_I2C", "LiquidCrystal"]
     n_bad = 0
-    cases = [(p_, b_, libs if i_ % 2 == 0 else None) for p_, bs in plats.items() for i_, b_ in enumerate(sorted(bs))]
-    cases.append(("atmelavr", "not-a-board", None))
-    for plat, board, lb in cases:
+    cases = [(p_, b_, libs if i_ % 2 == 0 else None, codes[i_ % len(codes)]) for p_, bs in plats.items() for i_, b_ in enumerate(sorted(bs))]
+    cases.append(("atmelavr", "not-a-board", None, code0))
+    for plat, board, lb, code in cases:
         log = []
         try:
             out = dl.Interp(m).call(wp, [FakePath(("P",), log), code, "/dev/ttyX"], {"platform": plat, "board": board, "lib_deps": lb})
@@ -186,7 +188,7 @@ def rule_project_eval(cx, m, rid):
             problems.append(f"effects {[(e[0], e[1]) for e in log]}")
         else:
             if writes["P/src/main.cpp"][2] != code or writes["P/src/main.cpp"][3] not in ("utf-8", "utf8", "UTF-8"):
-                problems.append("main.cpp is not the given code in utf-8")
+                problems.append(f"main.cpp is not the given code in utf-8: given {code!r}, written {writes['P/src/main.cpp'][2]!r}")
             ini = writes["P/platformio.ini"][2]
             lines = [l_ for l_ in ini.split("\n")]
             sections = [l_ for l_ in lines if l_.startswith("[")]
@@ -293,12 +295,9 @@ def rule_write(cx, m, rid):
     r.check("src/main.cpp" in seen_paths and "platformio.ini" in seen_paths and "src" in seen_paths, "write_project/paths", (m, wp), f"files written: {sorted(seen_paths)}; expected src/, src/main.cpp and platformio.ini")
     mc = seen_paths.get("src/main.cpp")
     if mc is not None:
-        r.check(len(mc.args) >= 1 and norm(mc.args[0]) == "cpp_code", "write_project/main.cpp=cpp_code", (m, mc), "main.cpp must receive the cpp_code parameter itself")
+        r.check(len(mc.args) >= 1 and "cpp_code" in {x.id for x in ast.walk(mc.args[0]) if isinstance(x, ast.Name)} | {x.id for d_ in Locals(wp).defs.get(norm(mc.args[0]), []) if isinstance(d_, ast.AST) for x in ast.walk(d_) if isinstance(x, ast.Name)}, "write_project/main.cpp=cpp_code", (m, mc), "what is written to main.cpp does not derive from the cpp_code parameter (that it is the parameter verbatim is decided by the evaluation rule)")
         enc = kwarg(mc, "encoding")
         r.check(enc is not None and lit.try_ev(enc) in ("utf-8", "utf8", "UTF-8"), "write_project/main.cpp-utf8", (m, mc), "main.cpp must be written as utf-8")
-        # cpp_code must not be rebound before the write
-        reb = [n for n in walk_local(wp) if isinstance(n, ast.Name) and n.id == "cpp_code" and isinstance(n.ctx, ast.Store)]
-        r.check(not reb, "write_project/cpp_code-not-rebound", (m, wp), "cpp_code is reassigned inside write_project")
     ic = seen_paths.get("platformio.ini")
     if ic is not None:
         enc = kwarg(ic, "encoding")
